@@ -71,6 +71,9 @@ func c03Writer(args []string) int {
 				if shape == "big" && r.Intn(3) == 0 {
 					body = make([]byte, (1<<20)+r.Intn(1<<20))
 					r.Read(body)
+				} else if shape == "many" {
+					body = oracle.GenBody(r, 40)
+					body = append(body, byte(s), byte(j), byte(j>>8), byte(seed))
 				} else {
 					body = oracle.GenBody(r, 600)
 					body = append(body, byte(s), byte(j), byte(j>>8), byte(seed)) // keep chunks distinct
